@@ -1,63 +1,572 @@
-//! probe (work in progress)
-use crate::dispgen::*;
+//! Block `c04`: meet-pass dispatch never authorises conflicting occupancy (C04).
+//! Real `make_est_times` + real `run_dispatch` on generated scenarios (single track, sidings, yards, junctions,
+//! diamonds/lockouts, 1-8 trains); the authority table is observed after every train move through the
+//! `verif_hooks` dispatch observer.  Every pair of consecutive snapshots becomes one `c04_step` op
+//! (table diff as push/close/finish/pop/reset operations) that the Lean model replays; independently the
+//! oracle below re-checks every clause of the property on every snapshot and on the returned plan.
+use crate::dispgen::{gen_train, location};
+use crate::netgen::*;
 use crate::prng::Rng;
 use crate::proto::*;
 use altrios_core::meet_pass::dispatch::run_dispatch;
-use altrios_core::meet_pass::dispatch::verif_hooks::{set_dispatch_observer, DispAuth, TrainIdx};
+use altrios_core::meet_pass::dispatch::verif_hooks::{set_dispatch_observer, DispAuth};
 use altrios_core::prelude::*;
+use altrios_core::track::*;
+use altrios_core::train::*;
 use altrios_core::validate::*;
 use std::cell::RefCell;
 use std::rc::Rc;
 
+
+// ---------------------------------------------------------------- scenario generator
+
+fn flat_link(idx: u32, len: f64, speed: f64, e0: f64, e1: f64) -> Link {
+    Link {
+        idx_curr: LinkIdx::new(idx),
+        length: m(len),
+        elevs: vec![Elev { offset: m(0.0), elev: m(e0) }, Elev { offset: m(len), elev: m(e1) }],
+        headings: vec![],
+        speed_set: Some(SpeedSet {
+            speed_limits: vec![SpeedLimit { offset_start: m(0.0), offset_end: m(len), speed: mps(speed) }],
+            speed_params: vec![],
+            is_head_end: false,
+        }),
+        ..Default::default()
+    }
+}
+
+/// one single-track line with passing sidings; links are appended to `net`
+/// returns (fwd main links, rev main links, sidings (k, fwd, rev))
+#[derive(Clone, Debug, Default)]
+pub struct Line {
+    pub main_fwd: Vec<u32>,
+    pub main_rev: Vec<u32>,
+    pub sidings: Vec<(usize, u32, u32)>,
+    /// separate terminal stubs (fwd, rev): west origin, west destination, east destination, east origin
+    pub yard: Option<[(u32, u32); 4]>,
+}
+
+fn add_pair(net: &mut Vec<Link>, len: f64, speed: f64, grade: f64) -> (u32, u32) {
+    let a = net.len() as u32;
+    let b = a + 1;
+    let mut l = flat_link(a, len, speed, 100.0, 100.0 + grade * len);
+    l.idx_flip = LinkIdx::new(b);
+    let mut f = flat_link(b, len, speed, 100.0 + grade * len, 100.0);
+    f.idx_flip = LinkIdx::new(a);
+    net.push(l);
+    net.push(f);
+    (a, b)
+}
+/// connect a → b in the forward direction (and flip(b) → flip(a)); `alt` uses the alternate slots
+fn connect(net: &mut [Link], a: (u32, u32), b: (u32, u32), alt_next: bool, alt_prev: bool) {
+    if alt_next { net[a.0 as usize].idx_next_alt = LinkIdx::new(b.0); } else { net[a.0 as usize].idx_next = LinkIdx::new(b.0); }
+    if alt_prev { net[b.0 as usize].idx_prev_alt = LinkIdx::new(a.0); } else { net[b.0 as usize].idx_prev = LinkIdx::new(a.0); }
+    // reverse direction: flip(b) → flip(a)
+    if alt_prev { net[b.1 as usize].idx_next_alt = LinkIdx::new(a.1); } else { net[b.1 as usize].idx_next = LinkIdx::new(a.1); }
+    if alt_next { net[a.1 as usize].idx_prev_alt = LinkIdx::new(b.1); } else { net[a.1 as usize].idx_prev = LinkIdx::new(b.1); }
+}
+fn lock(net: &mut [Link], a: u32, b: u32) {
+    if !net[a as usize].link_idxs_lockout.contains(&LinkIdx::new(b)) { net[a as usize].link_idxs_lockout.push(LinkIdx::new(b)); }
+    if !net[b as usize].link_idxs_lockout.contains(&LinkIdx::new(a)) { net[b as usize].link_idxs_lockout.push(LinkIdx::new(a)); }
+}
+
+pub fn gen_line(r: &mut Rng, net: &mut Vec<Link>, n_main: usize, siding_at: &[usize], lockouts: bool, len_lo: i64, len_hi: i64, yards: bool) -> Line {
+    let mut line = Line::default();
+    let mut pairs = vec![];
+    for k in 0..n_main {
+        // terminal links must hold the longest train (the train starts with its tail at offset 0)
+        let lo = if k == 0 || k + 1 == n_main { len_lo.max(7) } else { len_lo };
+        let len = r.range(lo, len_hi.max(lo)) as f64 * 250.0;
+        let sp = *r.pick(&[15.0, 20.0, 25.0]);
+        let g = r.range(-4, 4) as f64 / 1024.0;
+        pairs.push(add_pair(net, len, sp, g));
+    }
+    for k in 0..n_main - 1 { connect(net, pairs[k], pairs[k + 1], false, false); }
+    for &k in siding_at {
+        let len = net[pairs[k].0 as usize].length.value;
+        let s = add_pair(net, len, 10.0, 0.0);
+        connect(net, pairs[k - 1], s, true, false);
+        connect(net, s, pairs[k + 1], false, true);
+        if lockouts {
+            for &x in &[s.0, s.1] { for &y in &[pairs[k].0, pairs[k].1] { lock(net, x, y); } }
+        }
+        line.sidings.push((k, s.0, s.1));
+    }
+    if yards {
+        let mut y = vec![];
+        for _ in 0..4 { let len = r.range(len_lo.max(7), len_hi.max(7)) as f64 * 250.0; y.push(add_pair(net, len, 15.0, 0.0)); }
+        connect(net, y[0], pairs[0], false, false);
+        connect(net, y[1], pairs[0], false, true);
+        connect(net, pairs[n_main - 1], y[2], false, false);
+        connect(net, pairs[n_main - 1], y[3], true, false);
+        line.yard = Some([y[0], y[1], y[2], y[3]]);
+    }
+    line.main_fwd = pairs.iter().map(|p| p.0).collect();
+    line.main_rev = pairs.iter().map(|p| p.1).collect();
+    line
+}
+
 #[derive(Clone, Debug)]
-pub struct Snap {
-    pub phase: String,
-    pub tbl: Vec<Vec<DispAuth>>,
-    pub blocked: Vec<TrainIdx>,
+pub struct Scen {
+    pub net: Vec<Link>,
+    pub lines: Vec<Line>,
+    pub trains: Vec<SpeedLimitTrainSim>,
+    /// (line, eastbound, origin link, dest link)
+    pub routes: Vec<(usize, bool, u32, u32)>,
+    pub kind: String,
+}
+
+fn pick_sidings(r: &mut Rng, n_main: usize, p: f64, forbid: &[usize]) -> Vec<usize> {
+    let mut v = vec![];
+    let mut k = 1;
+    while k + 1 < n_main {
+        if !forbid.contains(&k) && r.chance(p) { v.push(k); k += 2; } else { k += 1; }
+    }
+    v
+}
+
+pub fn gen_scen(r: &mut Rng, max_trains: usize, big: bool) -> Scen {
+    let mut net = vec![Link::default()];
+    let kind = *r.pick(&["line", "diamond", "diamond", "diamond", "junction"]);
+    let short = r.chance(0.25);
+    let (len_lo, len_hi) = if short { (2, 8) } else { (12, 40) };
+    let n_main = if big { r.usize(8, 14) } else { r.usize(3, 8) };
+    let lockouts = r.chance(0.4);
+    let yards = r.chance(0.6);
+    let mut lines = vec![];
+    let mut branch: Option<(u32, u32)> = None; // far end of a junction branch (fwd origin link, rev dest link)
+    match kind {
+        "diamond" => {
+            let s1 = pick_sidings(r, n_main, 0.5, &[]);
+            let l1 = gen_line(r, &mut net, n_main, &s1, lockouts, len_lo, len_hi, yards);
+            let n2 = r.usize(3, 5);
+            let s2 = pick_sidings(r, n2, 0.4, &[]);
+            let l2 = gen_line(r, &mut net, n2, &s2, lockouts, len_lo, len_hi, yards);
+            // the two lines cross on the level (1-3 times): one main segment of each, all four directed links mutually exclusive
+            for _ in 0..r.usize(1, 3) {
+                let i = r.usize(0, n_main - 1);
+                let j = r.usize(0, n2 - 1);
+                for &x in &[l1.main_fwd[i], l1.main_rev[i]] { for &y in &[l2.main_fwd[j], l2.main_rev[j]] { lock(&mut net, x, y); } }
+            }
+            lines.push(l1);
+            lines.push(l2);
+        }
+        "junction" => {
+            let j = r.usize(1, n_main - 1);
+            let forbid = [j.saturating_sub(1), j, j + 1];
+            let s1 = pick_sidings(r, n_main, 0.6, &forbid);
+            let l1 = gen_line(r, &mut net, n_main, &s1, lockouts, len_lo, len_hi, yards);
+            // branch of nb links joining the main line in front of main segment j
+            let nb = r.usize(1, 3);
+            let mut bp = vec![];
+            for k in 0..nb { let lo = if k == 0 { len_lo.max(7) } else { len_lo }; let len = r.range(lo, len_hi.max(lo)) as f64 * 250.0; bp.push(add_pair(&mut net, len, 15.0, 0.0)); }
+            for k in 0..nb - 1 { connect(&mut net, bp[k], bp[k + 1], false, false); }
+            connect(&mut net, bp[nb - 1], (l1.main_fwd[j], l1.main_rev[j]), false, true);
+            branch = Some(bp[0]);
+            lines.push(l1);
+        }
+        _ => {
+            let s1 = pick_sidings(r, n_main, 0.6, &[]);
+            lines.push(gen_line(r, &mut net, n_main, &s1, lockouts, len_lo, len_hi, yards));
+        }
+    }
+    let nt = if r.chance(0.7) { r.usize(max_trains.min(4), max_trains) } else { r.usize(1, max_trains) };
+    let same_dep = r.chance(0.4);
+    let mut trains = vec![];
+    let mut routes = vec![];
+    for t in 0..nt {
+        let li = r.usize(0, lines.len() - 1);
+        let l = &lines[li];
+        let east = r.chance(0.5);
+        let n = l.main_fwd.len();
+        let (mut o, mut d) = if east { (l.main_fwd[0], l.main_fwd[n - 1]) } else { (l.main_rev[n - 1], l.main_rev[0]) };
+        if let Some(y) = l.yard { if east { o = y[0].0; d = y[2].0; } else { o = y[3].1; d = y[1].1; } }
+        if let Some(b) = branch { if r.chance(0.5) { if east { o = b.0 } else { d = b.1 } } }
+        // some trains terminate (or originate) on an intermediate main segment
+        if n >= 4 && r.chance(0.15) {
+            let k = r.usize(1, n - 2);
+            if r.chance(0.7) { d = if east { l.main_fwd[k] } else { l.main_rev[k] }; } else if branch.is_none() { o = if east { l.main_fwd[k] } else { l.main_rev[k] }; }
+        }
+        let depart = if same_dep || r.chance(0.3) { 0.0 } else { r.range(0, 40) as f64 * 60.0 };
+        trains.push(gen_train(r, &format!("T{}", t + 1), vec![location("O", o)], vec![location("D", d)], depart));
+        routes.push((li, east, o, d));
+    }
+    Scen { net, lines, trains, routes, kind: format!("{}{}{}", kind, if short { "-short" } else { "" }, if lockouts { "-lock" } else { "" }) + if yards { "-yards" } else { "" } }
+}
+
+
+// ---------------------------------------------------------------- observed table
+
+pub const OVERLAP: f64 = 30.0; // `time_overlap_change` in TrainDisp::advance
+const INF: f64 = f64::INFINITY;
+pub fn spacing() -> f64 { (8.0 * altrios_core::uc::MIN).value } // `time_spacing` passed by run_dispatch
+
+#[derive(Clone, Copy, Debug, PartialEq)]
+pub struct A { pub ae: f64, pub ax: f64, pub ce: f64, pub cx: f64, pub tr: u32 }
+type Tbl = Vec<Vec<A>>;
+
+fn conv(tbl: &[Vec<DispAuth>]) -> (Tbl, Vec<Vec<f64>>) {
+    (tbl.iter().map(|v| v.iter().map(|a| A { ae: a.arrive_entry.value, ax: a.arrive_exit.value, ce: a.clear_entry.value, cx: a.clear_exit.value, tr: a.train_idx.map(|x| x.get() as u32).unwrap_or(0) }).collect()).collect(),
+     tbl.iter().map(|v| v.iter().map(|a| a.offset_back.value).collect()).collect())
+}
+
+#[derive(Clone, Debug)]
+pub struct Snap { pub phase: String, pub tbl: Tbl, pub ob: Vec<Vec<f64>>, pub blocked: Vec<u32> }
+
+#[derive(Clone, Debug, PartialEq)]
+pub enum Op {
+    Push { l: usize, tr: u32, t: f64, front: Option<(usize, usize)> },
+    Ax { l: usize, i: usize, t: f64 }, Ce { l: usize, i: usize, t: f64 }, Cx { l: usize, i: usize, t: f64 }, Fin { l: usize, i: usize, t: f64 },
+    Pop { l: usize }, RAx { l: usize, i: usize }, RCe { l: usize, i: usize }, RCx { l: usize, i: usize },
+}
+impl Op {
+    fn time(&self) -> f64 { match self { Op::Push { t, .. } | Op::Ax { t, .. } | Op::Ce { t, .. } | Op::Cx { t, .. } | Op::Fin { t, .. } => *t, _ => f64::NEG_INFINITY } }
+    fn rank(&self) -> u32 { match self { Op::Pop { .. } => 0, Op::RCx { .. } => 1, Op::RAx { .. } => 2, Op::RCe { .. } => 3, Op::Ax { .. } => 4, Op::Push { .. } => 5, Op::Ce { .. } => 6, Op::Cx { .. } => 7, Op::Fin { .. } => 8 } }
+    fn name(&self) -> &'static str { match self { Op::Push { .. } => "push", Op::Ax { .. } => "ax", Op::Ce { .. } => "ce", Op::Cx { .. } => "cx", Op::Fin { .. } => "fin", Op::Pop { .. } => "pop", Op::RAx { .. } => "rax", Op::RCe { .. } => "rce", Op::RCx { .. } => "rcx" } }
+    fn tok(&self) -> String {
+        match self {
+            Op::Push { l, tr, t, front } => format!("push {} {} {} {}", l, tr, f(*t), opt(front, |x| format!("{} {}", x.0, x.1))),
+            Op::Ax { l, i, t } => format!("ax {} {} {}", l, i, f(*t)), Op::Ce { l, i, t } => format!("ce {} {} {}", l, i, f(*t)),
+            Op::Cx { l, i, t } => format!("cx {} {} {}", l, i, f(*t)), Op::Fin { l, i, t } => format!("fin {} {} {}", l, i, f(*t)),
+            Op::Pop { l } => format!("pop {}", l), Op::RAx { l, i } => format!("rax {} {}", l, i), Op::RCe { l, i } => format!("rce {} {}", l, i), Op::RCx { l, i } => format!("rcx {} {}", l, i),
+        }
+    }
+}
+
+fn tok_tbl(t: &Tbl) -> String {
+    let ls: Vec<usize> = (0..t.len()).filter(|&l| t[l].len() > 1).collect();
+    format!("{} {}", t.len(), seq(&ls, |&l| format!("{} {}", l, seq(&t[l][1..], |a| format!("{} {} {} {} {}", a.tr, f(a.ae), f(a.ax), f(a.ce), f(a.cx))))))
+}
+fn tok_net(net: &[Link]) -> String {
+    format!("{} {}", seq(net, |l| l.idx_flip.idx().to_string()), seq(net, |l| seq(&l.link_idxs_lockout, |x| x.idx().to_string())))
+}
+
+/// the table operations that turn `p` into `n` (one train's advance, or one train's rewind)
+fn diff(p: &Tbl, n: &Tbl, plan_t: &std::collections::HashMap<(u32, usize), f64>, fin_tbl: &Tbl, unknown: &mut u64) -> Result<Vec<Op>, String> {
+    let mut ops = vec![];
+    for l in 0..p.len() {
+        let (pv, nv) = (&p[l], &n[l]);
+        let common = pv.len().min(nv.len());
+        if pv[0] != nv[0] { return Err(format!("sentinel of link {} changed", l)); }
+        for i in 1..common {
+            let (a, b) = (pv[i], nv[i]);
+            if a == b { continue; }
+            if a.tr != b.tr { return Err(format!("authority {}[{}] changed train {} -> {}", l, i, a.tr, b.tr)); }
+            if a.ae != b.ae {
+                // only the early-exit branch of update_occupancy rewrites arrive_entry
+                if !(b.cx.is_finite() && a.cx == INF) { return Err(format!("arrive_entry of {}[{}] changed without a finish", l, i)); }
+                if a.ce == INF && b.ce != INF { ops.push(Op::Ce { l, i, t: b.ce }); } else if a.ce != b.ce { return Err(format!("clear_entry of {}[{}] changed {} -> {}", l, i, a.ce, b.ce)); }
+                if a.ax == INF && b.ax < b.cx { ops.push(Op::Ax { l, i, t: b.ax }); } else if a.ax != INF && a.ax != b.ax { return Err(format!("arrive_exit of {}[{}] changed {} -> {}", l, i, a.ax, b.ax)); }
+                ops.push(Op::Fin { l, i, t: b.cx });
+                continue;
+            }
+            for (k, (x, y)) in [(a.ax, b.ax), (a.ce, b.ce), (a.cx, b.cx)].iter().enumerate() {
+                if x == y { continue; }
+                if *x == INF && *y != INF { ops.push(match k { 0 => Op::Ax { l, i, t: *y }, 1 => Op::Ce { l, i, t: *y }, _ => Op::Cx { l, i, t: *y } }); }
+                else if *y == INF && *x != INF { ops.push(match k { 0 => Op::RAx { l, i }, 1 => Op::RCe { l, i }, _ => Op::RCx { l, i } }); }
+                else { return Err(format!("field {} of {}[{}] changed {} -> {}", k, l, i, x, y)); }
+            }
+        }
+        for _ in common..pv.len() { ops.push(Op::Pop { l }); }
+        for i in common..nv.len() {
+            let b = nv[i];
+            // an authority that is pushed and finished inside one advance shows a rewritten arrive_entry: the plan has the real one
+            let looks_finished = b.cx.is_finite() && b.ae == b.ce.min(b.cx) && b.ax == b.ax.min(b.cx);
+            let survives = fin_tbl[l].len() > i && fin_tbl[l][i].tr == b.tr;
+            let mut t = b.ae;
+            let mut rewritten = false;
+            if looks_finished && b.cx == b.ae.max(b.cx) {
+                match plan_t.get(&(b.tr, l)) {
+                    Some(&tp) if survives && tp < b.ae => { t = tp; rewritten = true; }
+                    Some(_) => {}
+                    None => { if b.ae == b.cx { *unknown += 1; } }
+                }
+            }
+            ops.push(Op::Push { l, tr: b.tr, t, front: None });
+            if b.ce != INF { ops.push(Op::Ce { l, i, t: b.ce }); }
+            if rewritten {
+                if b.ax < b.cx { ops.push(Op::Ax { l, i, t: b.ax }); }
+                ops.push(Op::Fin { l, i, t: b.cx });
+            } else {
+                if b.ax != INF { ops.push(Op::Ax { l, i, t: b.ax }); }
+                if b.cx != INF { ops.push(Op::Cx { l, i, t: b.cx }); }
+            }
+        }
+    }
+    ops.sort_by(|x, y| {
+        let rewind = |o: &Op| o.rank() < 4;
+        match (rewind(x), rewind(y)) {
+            (true, true) => x.rank().cmp(&y.rank()),
+            (true, false) => std::cmp::Ordering::Less,
+            (false, true) => std::cmp::Ordering::Greater,
+            _ => x.time().partial_cmp(&y.time()).unwrap_or(std::cmp::Ordering::Equal).then(x.rank().cmp(&y.rank())),
+        }
+    });
+    // the link the front leaves when it enters a new one: the same train's arrive_exit closes at the same instant
+    let train_of = |l: usize, i: usize| -> u32 { if i < n[l].len() { n[l][i].tr } else { 0 } };
+    let axs: Vec<(usize, usize, f64)> = ops.iter().filter_map(|o| if let Op::Ax { l, i, t } = o { Some((*l, *i, *t)) } else { None }).collect();
+    for o in ops.iter_mut() {
+        if let Op::Push { tr, t, front, .. } = o {
+            *front = axs.iter().find(|(l, i, ta)| *ta == *t && train_of(*l, *i) == *tr).map(|x| (x.0, x.1));
+        }
+    }
+    Ok(ops)
+}
+
+// ---------------------------------------------------------------- oracle (never consults the model)
+
+fn empty(a: &A) -> bool { a.cx <= a.ae }
+/// the two occupancy windows [arrive_entry, clear_exit) share no time of positive length (+inf = still held)
+fn disjoint(a: &A, b: &A) -> bool { empty(a) || empty(b) || b.cx <= a.ae || a.cx <= b.ae }
+fn conf(net: &[Link], l: usize) -> Vec<usize> {
+    let mut v = vec![net[l].idx_flip.idx()];
+    v.extend(net[l].link_idxs_lockout.iter().map(|x| x.idx()));
+    v
+}
+/// exactly the clauses of the model's `planOk`, on the raw snapshot (sentinels included)
+fn raw_plan_ok(net: &[Link], t: &Tbl) -> bool {
+    let sp = spacing();
+    for l in 0..t.len() {
+        for a in &t[l] { if !(a.ae <= a.ce && a.ce <= a.cx && a.ax <= a.cx && a.ae < INF) { return false; } }
+        for w in t[l].windows(2) {
+            let (a, b) = (&w[0], &w[1]);
+            if !(a.ce + sp <= b.ae || a.cx <= b.ae) { return false; }
+            if !(a.cx + sp <= b.ax) { return false; }
+        }
+        for m in conf(net, l) { if m >= t.len() { return false; } for a in &t[l] { for b in &t[m] { if !disjoint(a, b) { return false; } } } }
+    }
+    true
+}
+
+fn auth_json(l: usize, i: usize, a: &A) -> serde_json::Value {
+    serde_json::json!({"link": l, "idx": i, "train": a.tr, "arrive_entry": a.ae, "arrive_exit": a.ax, "clear_entry": a.ce, "clear_exit": a.cx})
+}
+
+struct Case<'a> { sc: &'a Scen, seed: u64, id: String }
+impl<'a> Case<'a> {
+    fn input(&self, extra: serde_json::Value) -> serde_json::Value {
+        serde_json::json!({
+            "block": "c04", "scenario_seed": format!("{:#x}", self.seed), "kind": self.sc.kind, "case": self.id,
+            "links": self.sc.net.iter().skip(1).map(|l| serde_json::json!([l.idx_curr.idx(), l.length.value, l.idx_flip.idx(), l.idx_next.idx(), l.idx_next_alt.idx(), l.link_idxs_lockout.iter().map(|x| x.idx()).collect::<Vec<_>>()])).collect::<Vec<_>>(),
+            "links_legend": "[idx, length_m, flip, next, next_alt, lockouts]",
+            "trains": self.sc.trains.iter().zip(&self.sc.routes).map(|(t, r)| serde_json::json!({"length_m": t.state.length.value, "depart_s": t.state.time.value, "orig": r.2, "dest": r.3})).collect::<Vec<_>>(),
+            "detail": extra,
+        })
+    }
+}
+
+/// property clauses on one observed table; `ae_true` replaces a rewritten arrive_entry by the real front-entry time
+fn oracle_table(ctx: &mut Ctx, case: &Case, phase: &str, k: usize, t: &Tbl, ob: &[Vec<f64>], blocked: &[u32], plan_t: &std::collections::HashMap<(u32, usize), f64>) {
+    let net = &case.sc.net;
+    let sp = spacing();
+    let fix = |l: usize, a: &A| -> A { let mut b = *a; if let Some(&tp) = plan_t.get(&(a.tr, l)) { if tp < b.ae && b.cx.is_finite() { b.ae = tp; } } b };
+    let wh = format!("{} snapshot {} ({})", case.id, k, phase);
+    for l in 1..t.len() {
+        // opposing direction / declared mutual exclusion
+        for (ci, m) in conf(net, l).into_iter().enumerate() {
+            if m == 0 || m >= t.len() || m < l && conf(net, m).contains(&l) { continue; } // each unordered pair once
+            let clause = if ci == 0 { "no_opposing_overlap" } else { "no_lockout_overlap" };
+            for (i, a) in t[l].iter().enumerate().skip(1) { for (j, b) in t[m].iter().enumerate().skip(1) {
+                if a.tr == b.tr { ctx.count("c04.same_train_on_conflicting_links"); continue; }
+                ctx.checked("C04", clause);
+                let (a2, b2) = (fix(l, a), fix(m, b));
+                if !disjoint(&a2, &b2) {
+                    ctx.fail("C04", clause, &wh, format!("trains {} and {} hold {} links {} and {} during overlapping windows [{}, {}) and [{}, {})", a.tr, b.tr, if ci == 0 { "opposite-direction" } else { "mutually exclusive" }, l, m, a2.ae, a2.cx, b2.ae, b2.cx),
+                        case.input(serde_json::json!({"snapshot": k, "phase": phase, "a": auth_json(l, i, a), "b": auth_json(m, j, b)})));
+                }
+            } }
+        }
+        // following moves over one directed link
+        let fl = net[l].idx_flip.idx();
+        for i in 2..t[l].len() {
+            let (a, b) = (fix(l, &t[l][i - 1]), fix(l, &t[l][i]));
+            ctx.checked("C04", "headway_entry");
+            if !(a.ce + sp <= b.ae) {
+                // not a following move if an opposing train used the segment in between
+                let between = fl < t.len() && t[fl].iter().skip(1).any(|c| a.cx <= c.ae && c.cx <= b.ae && c.ae < c.cx || a.cx <= c.ae && c.cx <= b.ae);
+                if between && a.cx <= b.ae { ctx.count("c04.headway.opposing_move_between"); }
+                else if a.cx <= b.ae { ctx.count("c04.headway.vacated_no_opposing"); ctx.fail("C04", "headway_after_vacated", &wh, format!("train {} enters link {} at {} only {} s after the tail of train {} entered it ({}), headway {} s; the leader had left the link ({}) and no opposing move lies in between", b.tr, l, b.ae, b.ae - a.ce, a.tr, a.ce, sp, a.cx),
+                        case.input(serde_json::json!({"snapshot": k, "phase": phase, "a": auth_json(l, i - 1, &a), "b": auth_json(l, i, &b)}))); }
+                else { ctx.fail("C04", "headway_entry", &wh, format!("train {} enters link {} at {} only {} s after the tail of train {} entered it ({}), headway {} s, leader still in the link", b.tr, l, b.ae, b.ae - a.ce, a.tr, a.ce, sp),
+                        case.input(serde_json::json!({"snapshot": k, "phase": phase, "a": auth_json(l, i - 1, &a), "b": auth_json(l, i, &b)}))); }
+            }
+            ctx.checked("C04", "headway_exit");
+            if !(a.cx + sp <= b.ax) {
+                ctx.fail("C04", "headway_exit", &wh, format!("front of train {} leaves link {} at {} less than {} s after the tail of train {} left it ({})", b.tr, l, b.ax, sp, a.tr, a.cx),
+                    case.input(serde_json::json!({"snapshot": k, "phase": phase, "a": auth_json(l, i - 1, &a), "b": auth_json(l, i, &b)})));
+            }
+            ctx.checked("C04", "no_order_change");
+            if !(a.ae <= b.ae && a.ax <= b.ax && a.ce <= b.ce && a.cx <= b.cx) {
+                ctx.fail("C04", "no_order_change", &wh, format!("trains {} then {} entered link {} in this order but their events are not in the same order: entry {} / {}, front exit {} / {}, tail entry {} / {}, tail exit {} / {}", a.tr, b.tr, l, a.ae, b.ae, a.ax, b.ax, a.ce, b.ce, a.cx, b.cx),
+                    case.input(serde_json::json!({"snapshot": k, "phase": phase, "a": auth_json(l, i - 1, &a), "b": auth_json(l, i, &b)})));
+            }
+        }
+        // each authority by itself
+        for (i, a) in t[l].iter().enumerate().skip(1) {
+            ctx.checked("C04", "authority_wellformed");
+            if !(a.ae <= a.ce && a.ce <= a.cx && a.ax <= a.cx && a.ae < INF) {
+                ctx.fail("C04", "authority_wellformed", &wh, format!("authority of train {} on link {} has inconsistent times: arrive_entry {} arrive_exit {} clear_entry {} clear_exit {}", a.tr, l, a.ae, a.ax, a.ce, a.cx),
+                    case.input(serde_json::json!({"snapshot": k, "phase": phase, "a": auth_json(l, i, a)})));
+            }
+            ctx.checked("C04", "held_flag_consistent");
+            if (a.cx == INF) == (ob[l][i] == INF) {
+                ctx.fail("C04", "held_flag_consistent", &wh, format!("authority of train {} on link {}: clear_exit {} but offset_back {}", a.tr, l, a.cx, ob[l][i]), case.input(serde_json::json!({"snapshot": k, "a": auth_json(l, i, a)})));
+            }
+        }
+    }
+    // links_blocked: a link must be marked blocked while a conflicting link is held
+    for x in 1..t.len() {
+        let holders: Vec<u32> = (1..t.len()).filter(|&y| conf(net, y).contains(&x)).flat_map(|y| t[y].iter().skip(1).filter(|a| a.cx == INF).map(|a| a.tr).collect::<Vec<_>>()).collect();
+        ctx.checked("C04", "blocked_covers_held");
+        if !holders.is_empty() && blocked[x] == 0 {
+            ctx.fail("C04", "blocked_covers_held", &wh, format!("link {} is not marked blocked although train(s) {:?} hold a link that conflicts with it", x, holders), case.input(serde_json::json!({"snapshot": k, "phase": phase, "link": x})));
+        }
+        if holders.is_empty() && blocked[x] != 0 { ctx.count("c04.blocked.stale_block"); }
+        else if blocked[x] != 0 && !holders.contains(&blocked[x]) { ctx.count("c04.blocked.other_train_named"); }
+        else if blocked[x] != 0 { ctx.count("c04.blocked.exact"); }
+    }
+}
+
+/// black-box necessary condition on the returned timed paths
+fn oracle_plan(ctx: &mut Ctx, case: &Case, plan: &[Vec<(usize, f64)>]) {
+    let net = &case.sc.net;
+    let sp = spacing();
+    // front-occupancy interval per (train, link): [arrival, arrival at the next link) — a lower bound of the real occupancy
+    let mut occ: Vec<(usize, usize, f64, f64, usize)> = vec![]; // train, link, from, to, next link
+    for (ti, p) in plan.iter().enumerate() {
+        for k in 0..p.len() {
+            ctx.checked("C04", "plan_times_monotone");
+            if k + 1 < p.len() && !(p[k].1 <= p[k + 1].1) { ctx.fail("C04", "plan_times_monotone", &case.id, format!("train {} arrives at link {} at {} after arriving at the next link {} at {}", ti + 1, p[k].0, p[k].1, p[k + 1].0, p[k + 1].1), case.input(serde_json::json!({"plan": plan}))); }
+            occ.push((ti + 1, p[k].0, p[k].1, if k + 1 < p.len() { p[k + 1].1 } else { p[k].1 }, if k + 1 < p.len() { p[k + 1].0 } else { 0 }));
+        }
+    }
+    for x in &occ { for y in &occ {
+        if x.0 >= y.0 { continue; }
+        let opposing = net[x.1].idx_flip.idx() == y.1;
+        let locked = net[x.1].link_idxs_lockout.iter().any(|z| z.idx() == y.1) || net[y.1].link_idxs_lockout.iter().any(|z| z.idx() == x.1);
+        if opposing || locked {
+            let clause = if opposing { "plan_no_opposing_overlap" } else { "plan_no_lockout_overlap" };
+            ctx.checked("C04", clause);
+            if x.2.max(y.2) < x.3.min(y.3) {
+                ctx.fail("C04", clause, &case.id, format!("returned plan: front of train {} is on link {} during [{}, {}) while front of train {} is on the conflicting link {} during [{}, {})", x.0, x.1, x.2, x.3, y.0, y.1, y.2, y.3), case.input(serde_json::json!({"plan": plan})));
+            }
+        }
+        if x.1 == y.1 {
+            let (a, b) = if x.2 <= y.2 { (x, y) } else { (y, x) };
+            // an opposing arrival on the flipped link strictly between the two arrivals: not a following move
+            let fl = net[x.1].idx_flip.idx();
+            let between = occ.iter().any(|c| c.1 == fl && fl != 0 && a.2 <= c.2 && c.2 <= b.2);
+            ctx.checked("C04", "plan_headway");
+            if !between && !(a.2 + sp <= b.2) {
+                ctx.fail("C04", "plan_headway", &case.id, format!("returned plan: trains {} and {} arrive at link {} at {} and {}, less than the headway {} s apart", a.0, b.0, x.1, a.2, b.2, sp), case.input(serde_json::json!({"plan": plan})));
+            }
+            if a.4 != 0 && a.4 == b.4 {
+                ctx.checked("C04", "plan_no_overtaking");
+                if !(a.3 <= b.3) { ctx.fail("C04", "plan_no_overtaking", &case.id, format!("returned plan: train {} enters link {} before train {} ({} < {}) but reaches the next link {} after it ({} > {})", a.0, x.1, b.0, a.2, b.2, a.4, a.3, b.3), case.input(serde_json::json!({"plan": plan}))); }
+            }
+        }
+    } }
+}
+
+// ---------------------------------------------------------------- driving the real code
+
+fn run_scen(ctx: &mut Ctx, sc: &Scen, seed: u64) {
+    let id = format!("scen{:x}", seed);
+    let case = Case { sc, seed, id: id.clone() };
+    ctx.count(&format!("c04.scen.{}", sc.kind.split('-').next().unwrap()));
+    ctx.count(&format!("c04.trains.{}", sc.trains.len()));
+    if sc.kind.contains("lock") || sc.kind.contains("diamond") { ctx.count("c04.scen.with_lockouts"); }
+    let mut ets = vec![];
+    for t in &sc.trains {
+        match guard(|| make_est_times(t.clone(), &sc.net)) {
+            Some(Ok((et, _))) => ets.push(et),
+            Some(Err(_)) => { ctx.count("c04.est_err"); return; }
+            None => { ctx.count("c04.est_panic"); return; }
+        }
+    }
+    let snaps: Rc<RefCell<Vec<Snap>>> = Rc::new(RefCell::new(vec![]));
+    let s2 = snaps.clone();
+    set_dispatch_observer(Some(Box::new(move |ph, tbl, bl| {
+        let (t, ob) = conv(tbl);
+        s2.borrow_mut().push(Snap { phase: ph.to_string(), tbl: t, ob, blocked: bl.iter().map(|x| x.map(|y| y.get() as u32).unwrap_or(0)).collect() });
+    })));
+    let res = guard(|| run_dispatch(&sc.net, &sc.trains, ets.clone(), false, false));
+    set_dispatch_observer(None);
+    let snaps = snaps.borrow();
+    let plan: Option<Vec<Vec<(usize, f64)>>> = match &res {
+        Some(Ok(p)) => { ctx.count("c04.dispatch.ok"); Some(p.iter().map(|v| v.iter().map(|x| (x.link_idx.idx(), x.time.value)).collect()).collect()) }
+        Some(Err(e)) => { ctx.count("c04.dispatch.err"); ctx.sample("c04.dispatch_err", serde_json::json!(format!("{:?}", e).chars().take(240).collect::<String>())); None }
+        None => { ctx.count("c04.dispatch.panic"); ctx.sample("c04.dispatch_panic", serde_json::json!({"seed": format!("{:#x}", seed), "msg": last_panic()})); None }
+    };
+    let mut plan_t = std::collections::HashMap::new();
+    if let Some(p) = &plan { for (ti, v) in p.iter().enumerate() { for (l, t) in v { plan_t.insert(((ti + 1) as u32, *l), *t); } } }
+    if snaps.is_empty() { return; }
+    let n_links = sc.net.len();
+    let fin_tbl = snaps.last().unwrap().tbl.clone();
+    let net_tok = tok_net(&sc.net);
+    let mut prev: Tbl = vec![vec![A { ae: -INF, ax: -INF, ce: -INF, cx: -INF, tr: 0 }]; n_links];
+    let mut unknown = 0u64;
+    for (k, s) in snaps.iter().enumerate() {
+        ctx.count(&format!("c04.snap.{}", s.phase));
+        if s.tbl == prev && k > 0 { ctx.count("c04.snap.unchanged"); }
+        else {
+            match diff(&prev, &s.tbl, &plan_t, &fin_tbl, &mut unknown) {
+                Ok(ops) => {
+                    for o in &ops { ctx.count(&format!("c04.ops.{}", o.name())); }
+                    stats_gate(ctx, &sc.net, &prev, &ops);
+                    let ok = raw_plan_ok(&sc.net, &s.tbl);
+                    if !ok { ctx.count("c04.snap.raw_plan_not_ok"); }
+                    ctx.op("C04", "c04_step", &format!("{} {} {} {} {}", f(spacing()), f(OVERLAP), net_tok, tok_tbl(&prev), seq(&ops, |o| o.tok())),
+                        &format!("ok T {} {}", b(ok), tok_tbl(&s.tbl)));
+                }
+                Err(why) => {
+                    ctx.checked("C04", "table_effects");
+                    ctx.fail("C04", "table_effects", &id, format!("snapshot {} ({}): the authority table changed in a way that is not a push/close/finish/pop/reset: {}", k, s.phase, why), case.input(serde_json::json!({"snapshot": k})));
+                }
+            }
+            ctx.checked("C04", "table_effects");
+        }
+        oracle_table(ctx, &case, &s.phase, k, &s.tbl, &s.ob, &s.blocked, &plan_t);
+        prev = s.tbl.clone();
+    }
+    ctx.count_n("c04.push_time_unknown", unknown);
+    let last = snaps.last().unwrap();
+    if last.phase == "final" {
+        ctx.op("C04", "c04_final", &format!("{} {} {}", f(spacing()), net_tok, tok_tbl(&last.tbl)), &format!("ok {}", b(raw_plan_ok(&sc.net, &last.tbl))));
+    }
+    if let Some(p) = &plan {
+        oracle_plan(ctx, &case, p);
+        let sid = p.iter().flatten().filter(|x| sc.lines.iter().any(|l| l.sidings.iter().any(|s| s.1 as usize == x.0 || s.2 as usize == x.0))).count();
+        if sid > 0 { ctx.count("c04.scen.siding_used"); }
+        if ctx.samples.get("c04.plan").map(|v| v.len()).unwrap_or(0) < 3 && sid > 0 { ctx.sample("c04.plan", serde_json::json!({"seed": format!("{:#x}", seed), "kind": sc.kind, "trains": sc.trains.len(), "snapshots": snaps.len(), "plan": p})); }
+    }
+    if snaps.iter().any(|s| s.phase == "rewind") { ctx.count("c04.scen.with_rewind"); }
+}
+
+/// which branch of the gate each observed entry took (distribution only)
+fn stats_gate(ctx: &mut Ctx, net: &[Link], t: &Tbl, ops: &[Op]) {
+    let sp = spacing();
+    for o in ops {
+        if let Op::Push { l, t: te, .. } = o {
+            let prev = t[*l].last().unwrap();
+            let fl = t[net[*l].idx_flip.idx()].last().unwrap();
+            let same = prev.cx >= fl.cx;
+            let g = if same { prev.ce + sp } else { fl.cx };
+            ctx.count(if same { "c04.gate.same_direction_branch" } else { "c04.gate.opposite_direction_branch" });
+            if prev.tr != 0 && prev.cx == INF { ctx.count("c04.gate.entered_behind_held_leader"); }
+            if g.is_finite() && *te == g { ctx.count("c04.gate.binding_neighbour"); }
+            for m in &net[*l].link_idxs_lockout { let a = t[m.idx()].last().unwrap(); if a.tr != 0 { ctx.count("c04.gate.lockout_seen"); if *te <= a.cx + OVERLAP + 1e-9 + 60.0 && *te >= a.cx + OVERLAP { ctx.count("c04.gate.lockout_near_binding"); } } }
+        }
+    }
 }
 
 pub fn run(ctx: &mut Ctx, r: &mut Rng, tier: &str) {
-    let n = if tier == "thorough" { 20 } else { 3 };
-    for _ in 0..n {
+    let n: usize = std::env::var("C04_N").ok().and_then(|x| x.parse().ok()).unwrap_or(if tier == "thorough" { 6000 } else { 400 });
+    for k in 0..n {
         let mut rr = r.fork();
-        let sc = gen_scenario(&mut rr, 4);
-        if sc.dn.net.validate().is_err() { continue; }
-        let mut ets = vec![];
-        for t in &sc.trains {
-            match guard(|| make_est_times(t.clone(), &sc.dn.net)) {
-                Some(Ok((et, _))) => ets.push(et),
-                _ => {}
-            }
-        }
-        if ets.len() != sc.trains.len() { continue; }
-        let snaps: Rc<RefCell<Vec<Snap>>> = Rc::new(RefCell::new(vec![]));
-        let s2 = snaps.clone();
-        set_dispatch_observer(Some(Box::new(move |ph, tbl, bl| {
-            s2.borrow_mut().push(Snap { phase: ph.to_string(), tbl: tbl.to_vec(), blocked: bl.to_vec() });
-        })));
-        let res = guard(|| run_dispatch(&sc.dn.net, &sc.trains, ets.clone(), false, false));
-        set_dispatch_observer(None);
-        eprintln!("=== scenario trains={} dirs={:?} n_main={} sidings={:?} lock={} res_ok={:?}", sc.trains.len(), sc.dirs, sc.dn.main_fwd.len(), sc.dn.sidings,
-            sc.dn.net.iter().any(|l| !l.link_idxs_lockout.is_empty()), res.as_ref().map(|x| x.is_ok()));
-        for (i, l) in sc.dn.net.iter().enumerate() { eprintln!("  link {} len {} flip {} next {} alt {} lock {:?}", i, l.length.value, l.idx_flip.idx(), l.idx_next.idx(), l.idx_next_alt.idx(), l.link_idxs_lockout.iter().map(|x| x.idx()).collect::<Vec<_>>()); }
-        for t in &sc.trains { eprintln!("  train len {} depart {}", t.state.length.value, t.state.time.value); }
-        let snaps = snaps.borrow();
-        let mut prev: Option<&Snap> = None;
-        for s in snaps.iter() {
-            eprintln!("-- {}", s.phase);
-            for (li, v) in s.tbl.iter().enumerate() {
-                let pv = prev.map(|p| &p.tbl[li]);
-                if pv.map(|p| p == v).unwrap_or(false) { continue; }
-                for (ai, a) in v.iter().enumerate().skip(1) {
-                    eprintln!("   L{} [{}] tr {:?} ae {:.1} ax {:.1} ce {:.1} cx {:.1} of {:.1} ob {:.1}", li, ai, a.train_idx.map(|x| x.get()), a.arrive_entry.value, a.arrive_exit.value, a.clear_entry.value, a.clear_exit.value, a.offset_front.value, a.offset_back.value);
-                }
-            }
-            eprintln!("   blocked {:?}", s.blocked.iter().map(|x| x.map(|y| y.get()).unwrap_or(0)).collect::<Vec<_>>());
-            prev = Some(s);
-        }
-        if let Some(Ok(plan)) = &res {
-            for p in plan { eprintln!("  plan {:?}", p.iter().map(|x| (x.link_idx.idx(), x.time.value)).collect::<Vec<_>>()); }
-        }
-        ctx.count("c04.probe");
+        let seed = rr.0;
+        let sc = gen_scen(&mut rr, 8, k % 3 == 2);
+        if sc.net.validate().is_err() { ctx.count("c04.net_invalid"); continue; }
+        run_scen(ctx, &sc, seed);
     }
 }
